@@ -53,7 +53,7 @@ def shapes():
         yield ", ".join(parts), (po, pk, ko, va, vk)
 
 
-DOCS = [("", None), ("'''doc'''", "doc"), ("'\\ud800 lone'", "\ud800 lone"), ("1", None), ("b'bytes'", None),
+DOCS = [("", None), ("''", ""), ("'''doc'''", "doc"), ("'\\ud800 lone'", "\ud800 lone"), ("1", None), ("b'bytes'", None),
         ("f'{a}'", None), ("'a' 'b'", "ab")]
 
 
